@@ -189,6 +189,15 @@ class Translator:
             if id(obj) in self.consts:
                 return ("const", self.consts[id(obj)])
             if isinstance(obj, (int, float)) and not isinstance(obj, bool):
+                # a number defined in another module of the package: prefer its defining expression
+                try:
+                    base = self.resolve_callable(mi, node.value)
+                    if inspect.ismodule(base) and base.__name__.startswith("yadism") and depth < 5:
+                        bmi = ModuleInfo.of(base)
+                        if node.attr in bmi.assigns:
+                            return self.expr(bmi, bmi.assigns[node.attr], {}, None, None, depth + 1)
+                except (Untranslatable, OSError, TypeError):
+                    pass
                 return ("lit", fractions.Fraction(obj))
             raise Untranslatable("attribute " + ast.unparse(node))
         if isinstance(node, ast.UnaryOp):
